@@ -489,6 +489,163 @@ theorem comment_colon_breaks_roundtrip :
     (parseSchema (formatSchema [("t".toList, [⟨"x".toList, ":string".toList, [], some "see:".toList⟩])])).toOption
       ≠ some [("t".toList, [⟨"x".toList, ":string".toList, [], some "see:".toList⟩])] := by decide
 
+
+/-! ## the relations file at character level (`write_schema` / `read_schema`) -/
+
+/-- `readSchema (writeSchema s) = s` for every schema satisfying the decidable predicate
+`schemaOkB` (Lemmas.lean): relation names start with a word character, contain no line-break
+character and are pairwise different; field names are non-empty and free of white space; datatypes
+and flags are non-empty and free of white space and `#`; a comment is non-empty, neither starts nor
+ends with white space and contains no line-break character; and no field line looks like a relation
+header (name starting with a word character AND line ending in a colon).  Here the file is its
+character text, read through `str.splitlines` (all of `\n \r \r\n \v \f FS GS RS NEL LS PS`). -/
+theorem readSchema_writeSchema (ss : SSchema) (h : schemaOkB ss = true) :
+    readSchema (writeSchema ss) = .ok ss := by
+  simp only [schemaOkB, Bool.and_eq_true, List.all_eq_true] at h
+  unfold readSchema writeSchema
+  rw [splitlinesPy_toText _ (noBreak_formatSchema ss h.1)]
+  exact parse_format_schema ss (fun t ht => TableOk_of_B t (h.1 t ht)) (nodupB_nodup _ h.2)
+
+/-- stability of the text: writing what was read back reproduces the file character by character -/
+theorem schema_text_stable (ss s' : SSchema) (h : schemaOkB ss = true)
+    (hr : readSchema (writeSchema ss) = .ok s') : writeSchema s' = writeSchema ss := by
+  rw [readSchema_writeSchema ss h] at hr
+  cases hr; rfl
+
+/-- the predicate is exact, clause by clause: dropping any one of its conjuncts admits a schema that
+the writer emits and the reader reads differently (or rejects) — and what it does NOT demand really is
+harmless (relation names with inner spaces, `#`, `:`; a field name starting with `-` whose line ends
+in a colon; a datatype ending in a colon that is not last on its line; `#` inside a comment).  On
+every one of these examples `schemaOkB` and the actual round trip agree. -/
+theorem schemaOk_clauses_needed :
+    roundTrips [("t".toList, [mkF "a b" ":s" [] none])] = false          -- white space in a field name
+    ∧ roundTrips [("t".toList, [mkF "" ":s" [] none])] = false           -- empty field name
+    ∧ roundTrips [("t".toList, [mkF "a" ":s#" [] none])] = false         -- `#` in a datatype
+    ∧ roundTrips [("t".toList, [mkF "a" ":s" [""] none])] = false        -- empty flag
+    ∧ roundTrips [("t".toList, [mkF "a" ":s" ["k k"] none])] = false     -- white space in a flag
+    ∧ roundTrips [("t".toList, [mkF "a" ":s" [] (some " c")])] = false   -- comment starting with a space
+    ∧ roundTrips [("t".toList, [mkF "a" ":s" [] (some "c ")])] = false   -- comment ending with a space
+    ∧ roundTrips [("t".toList, [mkF "a" ":s" [] (some "")])] = false     -- empty comment (read back as None)
+    ∧ roundTrips [("t".toList, [mkF "a" ":s" [] (some "see:")])] = false -- comment ending in a colon
+    ∧ roundTrips [("t".toList, [mkF "a" ":s" [":k:"] none])] = false     -- last flag ending in a colon
+    ∧ roundTrips [("t".toList, [mkF "a" ":s" [] (some "c\rd")])] = false -- line break inside a comment
+    ∧ roundTrips [("-t".toList, [mkF "a" ":s" [] none])] = false         -- relation name not starting with \w
+    ∧ roundTrips [("t\nu".toList, [mkF "a" ":s" [] none])] = false       -- line break in a relation name
+    ∧ roundTrips [("t".toList, []), ("t".toList, [])] = false            -- relation defined twice
+    ∧ roundTrips [("my table #1:".toList, [mkF "-x#" ":a:" [":k:"] none])] = true
+    ∧ roundTrips [("t".toList, [mkF "x" ":s:" [":k"] (some "c # d")]), ("q".toList, [])] = true
+    ∧ ([ [("t".toList, [mkF "a b" ":s" [] none])], [("t".toList, [mkF "" ":s" [] none])],
+         [("t".toList, [mkF "a" ":s#" [] none])], [("t".toList, [mkF "a" ":s" [""] none])],
+         [("t".toList, [mkF "a" ":s" ["k k"] none])], [("t".toList, [mkF "a" ":s" [] (some " c")])],
+         [("t".toList, [mkF "a" ":s" [] (some "c ")])], [("t".toList, [mkF "a" ":s" [] (some "")])],
+         [("t".toList, [mkF "a" ":s" [] (some "see:")])], [("t".toList, [mkF "a" ":s" [":k:"] none])],
+         [("t".toList, [mkF "a" ":s" [] (some "c\rd")])], [("-t".toList, [mkF "a" ":s" [] none])],
+         [("t\nu".toList, [mkF "a" ":s" [] none])], [("t".toList, []), ("t".toList, [])],
+         [("my table #1:".toList, [mkF "-x#" ":a:" [":k:"] none])],
+         [("t".toList, [mkF "x" ":s:" [":k"] (some "c # d")]), ("q".toList, [])] ].all
+        (fun s => schemaOkB s == roundTrips s)) = true := by
+  decide
+
+/-- "Writing a whole database … optionally under a different schema": the destination's `relations`
+file is exactly `writeSchema target` — in every case, also when the loop over the relations raised —
+so re-opening the written directory yields the target schema (for targets satisfying `schemaOkB`);
+the relation files are those of `writeDb` (theorems `writeDb_preserves`, `writeDb_no_stale`). -/
+theorem written_database_reopens (now : Nat) (q : DbReq) (tss : SSchema) (src : Files) (dst d : DbDir)
+    (e : Option Err) (h : writeDbDir now q tss src dst = (d, e)) :
+    d.relations = some (writeSchema tss) ∧ d.files = (writeDb now q src dst.files).1
+    ∧ e = (writeDb now q src dst.files).2
+    ∧ (schemaOkB tss = true → reopenSchema d = .ok tss) := by
+  unfold writeDbDir at h
+  cases hw : writeDb now q src dst.files with
+  | mk d1 e1 =>
+    simp only [hw, Prod.mk.injEq] at h
+    obtain ⟨hd, he⟩ := h
+    subst hd; subst he
+    refine ⟨rfl, rfl, rfl, ?_⟩
+    intro hok
+    exact readSchema_writeSchema tss hok
+
+/-! ## the reading interfaces -/
+
+/-- `Database[name]` (raw) is `split` mapped over what `tsdb.open` yields: both go through the same
+choice between the plain and the compressed file. -/
+theorem getitem_reads_open (r : Rel) :
+    readRaw r = (match openLines r with
+                 | .ok lines => lines.mapM splitLine
+                 | .error e => .error e) := by
+  unfold readRaw openLines
+  cases r.read with
+  | none => rfl
+  | some ls =>
+    simp only [mapM_map_eq]
+    rfl
+
+open Verif.C08 (Val) in
+/-- the autocast interface returns the cast of what the raw interface returns: if the raw read is
+`recs`, `Database(autocast=True)[name]` is `recs` with every record checked for its width and cast
+cell by cell. -/
+theorem autocast_is_cast_of_raw (fields : List Field) (r : Rel) (recs : List RawRec)
+    (h : readRaw r = .ok recs) : readCast fields r = recs.mapM (castRow fields) := by
+  unfold readRaw at h
+  unfold readCast
+  cases hr : r.read with
+  | none => simp [hr] at h
+  | some ls =>
+    simp only [hr] at h ⊢
+    exact mapM_fuse decodeRaw (castRow fields) _ recs h
+
+/-- the column-selecting interface returns the projection of what the raw interface returns -/
+theorem select_is_projection (fields : List Field) (cols : Option (List Name)) (r : Rel)
+    (recs : List RawRec) (idxs : List Nat) (h : readRaw r = .ok recs)
+    (hi : selIndices fields cols = .ok idxs) :
+    selectRaw fields cols r = recs.mapM (projectRow idxs) := by
+  unfold readRaw at h
+  unfold selectRaw openLines
+  cases hr : r.read with
+  | none => simp [hr] at h
+  | some ls =>
+    simp only [hr] at h
+    simp only [hi, bind, Except.bind, mapM_map_eq]
+    exact mapM_fuse decodeRaw (projectRow idxs) _ recs h
+
+open Verif.C08 (Val) in
+/-- … with `cast=True`: the projection of the raw records, the selected cells cast one by one -/
+theorem select_cast_is_projection_then_cast (fields : List Field) (cols : Option (List Name)) (r : Rel)
+    (recs : List RawRec) (idxs : List Nat) (h : readRaw r = .ok recs)
+    (hi : selIndices fields cols = .ok idxs) :
+    selectCast fields cols r = recs.mapM (fun rec_ => idxs.mapM (fun i =>
+      match fields[i]?, rec_[i]? with
+      | some f, some c => castCell f.dt c
+      | _, _ => .error .indexError)) := by
+  unfold readRaw at h
+  unfold selectCast openLines
+  cases hr : r.read with
+  | none => simp [hr] at h
+  | some ls =>
+    simp only [hr] at h
+    simp only [hi, bind, Except.bind, mapM_map_eq]
+    exact mapM_fuse decodeRaw _ _ recs h
+
+open Verif.C08 (Val) in
+/-- … on a `Database(autocast=True)`: the projection of what the autocast interface returns -/
+theorem select_auto_is_projection (fields : List Field) (cols : Option (List Name)) (r : Rel)
+    (rows : List (List Val)) (idxs : List Nat) (h : readCast fields r = .ok rows)
+    (hi : selIndices fields cols = .ok idxs) :
+    selectAuto fields cols r = rows.mapM (projectRow idxs) := by
+  unfold readCast at h
+  unfold selectAuto openLines
+  cases hr : r.read with
+  | none => simp [hr] at h
+  | some ls =>
+    simp only [hr] at h
+    simp only [hi, bind, Except.bind, mapM_map_eq]
+    have := mapM_fuse (fun l => do castRow fields (← decodeRaw l)) (projectRow idxs) _ rows h
+    rw [← this]
+    congr 1
+    funext l
+    simp only [bind, Except.bind, decodeRaw_eq_splitLine]
+    cases splitLine (l ++ ['\n']) <;> rfl
+
 /-! ## what is on disk: carriage returns, NUL and friends -/
 
 /-- the file iterator (`newline='\n'`, plain and gzip alike) splits the stored text at `\n` only:
@@ -577,6 +734,9 @@ Which model definition hand-codes which of them:
 * `c09DatabaseInitConsts`/defaults (`autocast=False`), `c09DatabaseGetitemConsts` (`fields = None` unless
   autocast), `c09SelectFromConsts`/defaults (`columns=None, cast=False`), `c09RelationInitConsts`:
   `readRaw` vs `readCast`, and the harness's observation through the default arguments.
+* `c09MakeFieldIndexConsts` (a bare dict comprehension: last index wins), `c09CastAlias` (`_cast is cast`):
+  `fieldIndex`, `selIndices`, `castCell`, `selectRaw` / `selectCast` / `selectAuto`; `c09ParseSchemaConsts`
+  and `c09ReadSchemaConsts` also stand behind the character-level `readSchema` (`splitlinesPy`, `strip`).
 * `coreFiles` is not used by the model; it is pinned because the generators take their relation
   names from it.
 
@@ -604,6 +764,8 @@ theorem c09_pins :
     c09DatabaseInitConsts = [] ∧
     c09DatabaseGetitemConsts = ["None"] ∧
     c09SelectFromConsts = ["None"] ∧
+    c09MakeFieldIndexConsts = [] ∧
+    c09CastAlias = true ∧
     c09Defaults = [
        ("_get_paths", "None", "None"),
        ("get_path", "None", "None"),
@@ -625,11 +787,12 @@ theorem c09_pins :
        ("Relation.__init__", "('utf-8',)", "None"),
        ("Database.__init__", "(False, 'utf-8')", "None"),
        ("Database.__getitem__", "None", "None"),
-       ("Database.select_from", "(None, False)", "None")] ∧
+       ("Database.select_from", "(None, False)", "None"),
+       ("make_field_index", "None", "None")] ∧
     c09SchemaFilename = "relations" ∧
     fieldDelimiter = '@' ∧
     codedAttributes = [("i-wf", "1"), ("i-difficulty", "1"), ("polarity", "-1")] ∧
     coreFiles = ["item", "analysis", "phenomenon", "parameter", "set", "item-phenomenon", "item-set"] := by
-  refine ⟨?_, ?_, ?_, ?_, ?_, ?_, ?_, ?_, ?_, ?_, ?_, ?_, ?_, ?_, ?_, ?_, ?_, ?_, ?_, ?_, ?_, ?_, ?_, ?_, ?_, ?_⟩ <;> rfl
+  refine ⟨?_, ?_, ?_, ?_, ?_, ?_, ?_, ?_, ?_, ?_, ?_, ?_, ?_, ?_, ?_, ?_, ?_, ?_, ?_, ?_, ?_, ?_, ?_, ?_, ?_, ?_, ?_, ?_⟩ <;> rfl
 
 end Verif.C09
